@@ -53,6 +53,10 @@ type c17Scenario struct {
 	// is detected (seqio.Detect), as the CLI does for -o; it always ends in
 	// ".fasta", so FASTA is what must come out.
 	OutName string `json:"out_name,omitempty"`
+	// SharedBuffer: the residues of all records are consecutive windows of ONE
+	// byte slice (each window's capacity reaches into the next one), as a
+	// caller cutting a genome into pieces hands them to the writer.
+	SharedBuffer bool `json:"shared_buffer,omitempty"`
 }
 
 var printable = func() string {
@@ -84,6 +88,9 @@ func genDesc(r *core.RNG) string {
 			p[i] = byte(r.Range(32, 126))
 		}
 		return string(p)
+	case 6:
+		// bytes that are not valid UTF-8: a Latin-1 header, a stray 0xff, a cut multi-byte sequence
+		return []string{"prot\xe9ine de capside", "sample \xff\xfe 7", "caf\xc3", "\x80\x81 lead", "na\xefve \xe2\x82"}[r.Intn(5)]
 	}
 	return genText(r, 1, 12)
 }
@@ -148,6 +155,7 @@ func genC17(r *core.RNG, tier string) *c17Scenario {
 	if r.Chance(1, 6) {
 		sc.OutName = fastaNames[r.Intn(len(fastaNames))]
 	}
+	sc.SharedBuffer = r.Chance(1, 5)
 	if r.Chance(1, 30) {
 		// a record whose laid-out body (residues plus line ends) is exactly, or one
 		// off, a multiple of a buffer size somewhere below: 4 KiB, 32 KiB, 64 KiB
@@ -318,8 +326,23 @@ func (x *c17Run) exec() {
 			res.Probes["genbank_to_fasta_conversions"]++
 		}
 	} else {
+		var shared []byte
+		var offs []int
+		if sc.SharedBuffer {
+			for _, f := range sc.Recs {
+				offs = append(offs, len(shared))
+				shared = append(shared, f.residues()...)
+			}
+			shared = append(shared, "tail of the buffer"...)
+			res.Probes["records_as_windows_of_one_buffer"]++
+		}
 		for i, f := range sc.Recs {
 			data := f.residues()
+			if sc.SharedBuffer {
+				// what must come back is the content before any write touched the buffer
+				data = shared[offs[i] : offs[i]+f.Len]
+			}
+			expect := append([]byte(nil), f.residues()...)
 			var seq gts.Sequence = seqio.Fasta{Desc: f.Desc, Data: data}
 			if f.AsBasic {
 				seq = gts.New(f.Desc, nil, data)
@@ -349,7 +372,7 @@ func (x *c17Run) exec() {
 				lc = "70k+69"
 			}
 			x.key(fmt.Sprintf("write|len=%s|rem=%d", lc, f.Len%70))
-			wants = append(wants, want{f.Desc, data})
+			wants = append(wants, want{f.Desc, expect})
 			stream = append(stream, out...)
 			bounds, pieces = append(bounds, len(stream)), append(pieces, out)
 		}
@@ -561,6 +584,11 @@ func (C17) Candidates(raw json.RawMessage) []json.RawMessage {
 	if sc.Align != 0 {
 		c := cl()
 		c.Align = 0
+		emit(c)
+	}
+	if sc.SharedBuffer {
+		c := cl()
+		c.SharedBuffer = false
 		emit(c)
 	}
 	if sc.OutName != "" && sc.OutName != "out.fasta" {
